@@ -368,6 +368,25 @@ class Canon(ast.NodeTransformer):
         node = self.generic_visit(node)
         if _is_keys(node.iter):
             node.iter = node.iter.func.value
+        # for i, x in enumerate(XS): inside the body XS[i] is x (XS, i and x not re-bound there)
+        it = node.iter
+        if isinstance(it, ast.Call) and isinstance(it.func, ast.Name) and it.func.id == "enumerate" and len(it.args) == 1 and not it.keywords \
+                and isinstance(node.target, ast.Tuple) and len(node.target.elts) == 2 and all(isinstance(e, ast.Name) for e in node.target.elts) \
+                and isinstance(it.args[0], (ast.Name, ast.Attribute)):
+            i, x = node.target.elts[0].id, node.target.elts[1].id
+            xs = ast.dump(_as_load(it.args[0]))
+            root = it.args[0]
+            while isinstance(root, ast.Attribute):
+                root = root.value
+            rebound = {n.id for st in node.body for n in ast.walk(st) if isinstance(n, ast.Name) and isinstance(n.ctx, (ast.Store, ast.Del))}
+            if isinstance(root, ast.Name) and not ({i, x, root.id} & rebound):
+                class _R(ast.NodeTransformer):
+                    def visit_Subscript(self_, n):
+                        self_.generic_visit(n)
+                        if isinstance(n.ctx, ast.Load) and isinstance(n.slice, ast.Name) and n.slice.id == i and ast.dump(_as_load(n.value)) == xs:
+                            return ast.copy_location(ast.Name(id=x, ctx=ast.Load()), n)
+                        return n
+                node.body = [_R().visit(st) for st in node.body]
         return node
 
     def visit_comprehension(self, node):
